@@ -184,6 +184,52 @@ def gen_nested_try(rnd):
     return '\n'.join(L) + '\n'
 
 
+def gen_closure(rnd):
+    """stream 'closures': a local def closing over a state variable; an if (alone or inside a loop) that assigns the
+    variable in a branch; the NEXT statement rebinds the variable from a call of the closure (directly, through a sibling
+    def, through a helper taking the closure), with no plain read in between: the closure observes the value the branch
+    wrote, so the variable is an output of the if"""
+    k = [0]
+
+    def K():
+        k[0] += 1
+        return k[0]
+    v, u = rnd.sample(['x', 'y', 'z', 'w'], 2)
+    L = ['def f(a, b, c, m, o, d, e):', '    %s = T(%d, a)' % (v, K()), '    %s = T(%d, b)' % (u, K())]
+    g = 'g%d' % K()
+    L += ['    def %s():' % g, '        return T(%d, %s)' % (K(), v)]
+    how = rnd.choice(['direct', 'direct', 'sibling', 'helper'])
+    if how == 'sibling':
+        sname = 's%d' % K()
+        L += ['    def %s():' % sname, '        return %s() + T(%d)' % (g, K())]
+        call = '%s()' % sname
+    elif how == 'helper':
+        hname = 'h%d' % K()
+        L += ['    def %s(fn):' % hname, '        return fn()']
+        call = '%s(%s)' % (hname, g)
+    else:
+        call = '%s()' % g
+    wrap = rnd.choice(['', '', 'while', 'for'])
+    ind = '    '
+    if wrap == 'while':
+        L.append(ind + 'while D(%d):' % K())
+        ind += '    '
+    elif wrap == 'for':
+        L.append(ind + 'for i1 in L(%d):' % K())
+        ind += '    '
+    L.append(ind + 'if D(%d):' % K())
+    L.append(ind + '    %s = %s' % (v, rnd.choice(['T(%d, a)' % K(), 'T(%d, %s)' % (K(), v), 'T(%d, %s)' % (K(), u)])))
+    if rnd.random() < 0.3:
+        L.append(ind + '    %s = T(%d, %s)' % (u, K(), u))
+    if rnd.random() < 0.3:
+        L += [ind + 'else:', ind + '    %s = T(%d)' % (v, K())]
+    if rnd.random() < 0.25:
+        L.append(ind + '%s = T(%d, b)' % (u, K()))      # a statement that does not touch v in between
+    L.append(ind + '%s = %s' % (v, rnd.choice(['%s * 10' % call, 'T(%d, %s)' % (K(), call), '%s + T(%d)' % (call, K())])))
+    L.append('    return T(%d, %s, %s)' % (K(), v, u))
+    return '\n'.join(L) + '\n'
+
+
 CORPUS = [
     # (stream, source) -- hand-written shapes that must always be exercised
     ('main', "def f(a, b, c, m, o, d, e):\n    x = 0\n    if D(1):\n        d['k'] = T(2)\n        o.v = T(3)\n        x = x + 1\n    for y in L(4):\n        " + DIRECTIVE + "(maximum_iterations=3)\n        x += y\n        if D(5, x):\n            break\n    while D(6):\n        " + DIRECTIVE + "(parallel_iterations=K1, swap_memory=True)\n        x += 1\n        for z in L(7):\n            " + DIRECTIVE + "(maximum_iterations=K2)\n            o.v += z\n    return T(8, x)\n"),
@@ -193,6 +239,7 @@ CORPUS = [
     ('scopes', "def f(a, b, c, m, o, d, e):\n    x = T(1)\n    def g1():\n        global x\n        x = T(2)\n        return T(3)\n    for y in L(4):\n        x = x + g1()\n    return T(5, x)\n"),
     ('scopes', "def f(a, b, c, m, o, d, e):\n    x = T(1)\n    z = 0\n    class C1:\n        global x\n        x = 5\n    def g2():\n        nonlocal z\n        z = z + T(2)\n        return T(3)\n    if D(4):\n        x = x + g2()\n        z = z + 1\n    while D(6):\n        z = z + g2()\n    return T(5, x, z)\n"),
     ('tries', "def f(a, b, c, m, o, d, e):\n    x = T(1, a)\n    try:\n        try:\n            if D(2):\n                x = T(3, x)\n            raise E1()\n        except E0:\n            x = T(4)\n        x = T(5)\n    except E1:\n        return T(6, x)\n    return T(7, x)\n"),
+    ('closures', "def f(a, b, c, m, o, d, e):\n    x = T(1, a)\n    def g2():\n        return T(3, x)\n    if D(4):\n        x = T(5, a)\n    x = g2() * 10\n    return T(6, x)\n"),
     ('missing', "def f(a, b, c, m, o, d, e):\n    if D(1):\n        d['j'] = T(2)\n    if D(3):\n        o.w = T(4)\n    return T(5)\n"),
     ('order', "def f(a, b, c, m, o, d, e):\n    x = 0\n    while D(1):\n        e[x] = T(2, x)\n        x = x + 1\n    return T(3, x)\n"),
 ]
@@ -1247,7 +1294,8 @@ def check(run):
     thorough = run.tier == 'thorough'
     run.rule = ('programs: hand corpus + seeded progs.Gen extended with nested defs / class bodies declaring a local of the '
                 'enclosing function global / nonlocal (stream "scopes" and main), nested tries with typed handlers and raises that only '
-                'the outer handler catches (stream "tries"), composite state (o.v, d[\'k\'], d[0]; stream '
+                'the outer handler catches (stream "tries"), local closures over a state variable called by the statement that rebinds it '
+                '(stream "closures"), composite state (o.v, d[\'k\'], d[0]; stream '
                 '"missing": o.w / d[\'j\'] unset at entry; stream "order": e[x] with x reassigned) and set_loop_options '
                 'directives as first loop statement; each converted with instrumented operators and run under several '
                 'decision vectors; evaluations = dynamic operator invocations checked + static cases + dynamic model cases; '
@@ -1266,8 +1314,8 @@ def check(run):
 
     rnd = random.Random(run.seed)
     h = Harness(run)
-    nprog = ({'main': 290, 'missing': 50, 'order': 50, 'scopes': 60, 'tries': 40} if not thorough else
-             {'main': 1200, 'missing': 200, 'order': 200, 'scopes': 250, 'tries': 250})
+    nprog = ({'main': 290, 'missing': 50, 'order': 50, 'scopes': 60, 'tries': 40, 'closures': 40} if not thorough else
+             {'main': 1200, 'missing': 200, 'order': 200, 'scopes': 250, 'tries': 250, 'closures': 250})
     nvec = 3 if not thorough else 5
     programs = list(CORPUS) + corpus_files()
     for stream in ('main', 'missing', 'order', 'scopes'):
@@ -1275,6 +1323,8 @@ def check(run):
             programs.append((stream, gen_program(rnd, stream)))
     for _ in range(nprog['tries']):
         programs.append(('tries', gen_nested_try(rnd)))
+    for _ in range(nprog['closures']):
+        programs.append(('closures', gen_closure(rnd)))
     failures = []      # (what, replay dict, classify)
     scope_checked = {'functions': 0, 'statements': 0, 'failures': 0}
     conv_errors = 0
